@@ -48,6 +48,9 @@ GROUPS = {
             H("number_rem_int_value", ["C01"], "impl Rem", bound=GRID),
             H("number_rem_mixed_is_float", ["C01", "C06"], "impl Rem"),
             H("number_neg", ["C01", "C06"], "impl Neg for KNumber / &KNumber"),
+            H("number_pow_int_representation", ["C01", "C06"], "KNumber::pow (I64, I64)"),
+            H("number_pow_two_wraps_to_zero", ["C01"], "KNumber::pow (I64, I64)"),
+            H("number_pow_int_small", ["C01"], "KNumber::pow (I64, I64)", bound="base on the 64-point grid of small_int, exponent 0..=3"),
             H("number_abs_total", ["C06"], "KNumber::abs"),
             H("number_rounding_total", ["C06"], "KNumber::{floor,ceil,round}"),
             H("number_eq_laws", ["C14"], "impl PartialEq for KNumber"),
